@@ -31,6 +31,12 @@ INPUTS.append(("scalars_mixins",
 INPUTS.append(("upload", "scalar Upload\ntype Query { ok: Boolean }\ntype Mutation { up(f: Upload!, fs: [Upload!], meta: Meta): Boolean }\ninput Meta { file: Upload, note: String }",
                "mutation Up($f: Upload!, $fs: [Upload!], $meta: Meta) { up(f: $f, fs: $fs, meta: $meta) }\nquery Ok { ok }", {}, {}, False))
 
+INPUTS.append(("two_enums_in_fragments",
+               "type Query { item: Item! items: [Item!] }\ntype Item { id: ID! colour: Colour material: Material! size: Size tags: [Tag!] when: Stamp }\nenum Colour { RED }\nenum Material { WOOD }\nenum Size { S M }\nenum Tag { A }\nscalar Stamp",
+               "query One { item { ...ColourF ...MaterialF } }\nquery Two { items { ...SizeF ...TagF id } }\nquery Three { item { ...StampF ...ColourF } }\n"
+               "fragment ColourF on Item { colour }\nfragment MaterialF on Item { material }\nfragment SizeF on Item { size }\nfragment TagF on Item { tags }\nfragment StampF on Item { when }",
+               {"scalars": {"Stamp": {"type": "str", "parse": ".scal.parse_d"}}, "files_to_include": ["scal.py"]}, {"scal.py": SCAL}, False))
+
 DOCUMENTED = ("ariadne_codegen.exceptions.NotSupported", "ariadne_codegen.exceptions.ParsingError")
 
 
